@@ -45,6 +45,7 @@ package ice
 
 //@ func evaluateRewriteRules
 //@   props C19
+//@   opt timeout=40
 //@   ghostvar chosen int = 0 - 1
 //@   site call cloneIPs#2 ghost chosen := rangeindex + 1
 //@   loop 1 invariant bounds: 0 - 1 <= rangeindex && rangeindex < len(rules) || (len(rules) == 0 && rangeindex == 0 - 1)
